@@ -702,6 +702,10 @@ class VP:
                 pf = fn.promoted_fn(int(m.group(1)))
                 if pf is not None:
                     return self.local(pf, 0)
+            if o.get("eval_newtype"):
+                # a named constant of an index newtype (`Position::ROOT`) is the constructor applied to its value
+                en = o["eval_newtype"]
+                return ("adt", en["path"], en["path"].split("::")[-1], (("const", en["val"]),))
             return ("const", o.get("eval") or o["s"])   # a named integer constant is its value (`usize::BITS`, `const TOP_BIT`)
         return ("other", o.get("s", "?"))
 
